@@ -309,6 +309,25 @@ func timeoutFor(line string) time.Duration {
 	return workerTimeout
 }
 
+// user + system CPU time of a process (linux: /proc/<pid>/stat fields 14 and 15, in ticks of 1/100 s)
+func cpuSeconds(pid int) float64 {
+	b, err := os.ReadFile(fmt.Sprintf("/proc/%d/stat", pid))
+	if err != nil {
+		return 1e9
+	}
+	t := string(b)
+	if i := strings.LastIndex(t, ")"); i >= 0 {
+		t = t[i+1:]
+	}
+	f := strings.Fields(t)
+	if len(f) < 13 {
+		return 1e9
+	}
+	u, _ := strconv.ParseFloat(f[11], 64)
+	sy, _ := strconv.ParseFloat(f[12], 64)
+	return (u + sy) / 100
+}
+
 func lineKind(line string) string {
 	f := strings.SplitN(line, " ", 3)
 	if f[0] == "N" && len(f) > 1 {
@@ -337,9 +356,24 @@ func Exec(line string) hx.Result {
 		done <- ans{s, err}
 	}()
 	var a ans
-	select {
-	case a = <-done:
-	case <-time.After(timeoutFor(line)):
+	limit := timeoutFor(line)
+	cpu0 := cpuSeconds(w.cmd.Process.Pid)
+	got := false
+	for ext := 0; !got; ext++ {
+		select {
+		case a = <-done:
+			got = true
+		case <-time.After(limit):
+		}
+		// on a machine shared with other checks the wall clock says little: while the worker has not had its share of CPU, wait on
+		// (at most three times)
+		if got || ext >= 3 || cpuSeconds(w.cmd.Process.Pid)-cpu0 >= 0.6*float64(ext+1)*limit.Seconds() {
+			break
+		}
+	}
+	switch {
+	case got:
+	default:
 		_, _, nt := fatalSite(w.stderr())
 		w.kill()
 		theWorker = nil
@@ -397,8 +431,8 @@ func main() {
 		Gen:     Gen,
 		Exec:    Exec,
 		Corpus:  corpus(),
-		N:       map[string]int{"quick": 6000, "thorough": 120000},
+		N:       map[string]int{"quick": 6000, "thorough": 60000},
 		Isolate: true,
-		Timeout: 200 * time.Second,
+		Timeout: 500 * time.Second,
 	})
 }
